@@ -135,3 +135,7 @@ func keyLink(key string) datamodel.Link {
 	}
 	return cidlink.Link{Cid: c}
 }
+
+func keyLinkPrefix(codec uint64) cid.Prefix {
+	return cid.Prefix{Version: 1, Codec: codec, MhType: 0x12, MhLength: 32}
+}
